@@ -126,6 +126,8 @@ func (t *intScalar) CoerceOut(v interface{}) (interface{}, error) {
 		var i int64
 		if i, err = strconv.ParseInt(tv, 10, 64); err == nil {
 			v = int32(i)
+		} else {
+			v = nil
 		}
 	default:
 		err = newCoerceErr(tv, "Int")
